@@ -24,7 +24,9 @@ DistFuns == << [a |-> RZero, b |-> <<1, 8>>], [a |-> <<-1, 8>>, b |-> <<1, 4>>],
 DistReq == << [a |-> 0, b |-> UNIT \div 8], [a |-> 0 - (UNIT \div 8), b |-> UNIT \div 4], [a |-> 0, b |-> 0], [none |-> TRUE],
              [a |-> 0 - (UNIT \div 2), b |-> UNIT \div 2] >>
 
-Instances == UNION {[n : {sh \div 10}, m : {sh % 10}, vals : [1..(sh \div 10) -> [1..(sh % 10) -> EVals]],
+(* the largest shape (3 alternatives x 2 criteria) uses at most three criterion values to keep the instance set enumerable *)
+EValsOf(sh) == IF sh = 32 /\ Cardinality(EVals) > 3 THEN {v \in EVals : v <= 3} ELSE EVals
+Instances == UNION {[n : {sh \div 10}, m : {sh % 10}, vals : [1..(sh \div 10) -> [1..(sh % 10) -> EValsOf(sh)]],
                      th : [1..(sh % 10) -> ThCfgs], k : KCfgs, ty : [1..(sh % 10) -> {"gain", "cost"}], f : Funs] : sh \in Shapes}
 
 AOf(i) == {AltName[a] : a \in 1..i.n}
